@@ -139,6 +139,21 @@ class Gen(object):
             self._wcache[id(alts)] = c
         return c
 
+    def _is_digit_item(self, item):
+        try:
+            if len(item) != 1:
+                return False
+            op, av = item[0]
+            if op is sre_c.IN:
+                ms = in_members(av)
+            elif op is sre_c.CATEGORY:
+                ms = cat_members(av)
+            else:
+                return False
+            return '0' in ms and '9' in ms
+        except Exception:
+            return False
+
     def generate(self, draw, long_digits=False):
         out = []
         self._gen(self.tree, draw, out, long_digits)
@@ -177,6 +192,12 @@ class Gen(object):
                     choices.append(hi_eff)
                 n = choices[draw(len(choices))]
                 self.covered.add(('rep', id(item), n == lo))
+                if n >= 2 and self._is_digit_item(item) and draw(4) == 0:
+                    # patterned digit runs (independent random digits almost never give them): zeroes then one digit
+                    # (0.00005), one digit then zeroes (50000 / 2.5000), all zeroes, all nines
+                    d = '123456789'[draw(9)]
+                    out.append(['0' * (n - 1) + d, d + '0' * (n - 1), '0' * n, '9' * n][draw(4)])
+                    continue
                 for _ in range(n):
                     self._gen(item, draw, out, long_digits)
             elif op is sre_c.AT:
